@@ -132,9 +132,9 @@ impl<VM: VMBinding> PageResource<VM> for FreeListPageResource<VM> {
                 // *starts*, so the chunk may already have been mapped (and protected on release) as the
                 // tail of an earlier allocation that crossed the chunk boundary.
                 // We still need to unprotect it.
-                if MMAPPER.is_mapped_address(rtn) {
-                    self.munprotect(rtn, sync.free_list.size(page_offset as _) as _)
-                }
+                // An allocation may span several chunks, some mapped (and protected) and some not
+                // yet mapped: unprotect the mapped ones, the mmapper will map the others.
+                self.munprotect_mapped_chunks(rtn, sync.free_list.size(page_offset as _) as _)
             }
         };
         Result::Ok(PRAllocResult {
@@ -246,6 +246,22 @@ impl<VM: VMBinding> FreeListPageResource<VM> {
                 "Failed at unprotecting memory (starting at {}): {:?}",
                 start, e
             );
+        }
+    }
+
+    /// Unprotect those chunks of the page range that are mapped.
+    fn munprotect_mapped_chunks(&self, start: Address, pages: usize) {
+        let end = start + conversions::pages_to_bytes(pages);
+        let mut cursor = start;
+        while cursor < end {
+            let next = Address::min(
+                conversions::chunk_align_down(cursor) + crate::util::heap::layout::vm_layout::BYTES_IN_CHUNK,
+                end,
+            );
+            if MMAPPER.is_mapped_address(cursor) {
+                self.munprotect(cursor, conversions::bytes_to_pages_up(next - cursor));
+            }
+            cursor = next;
         }
     }
 
